@@ -103,6 +103,26 @@ Theorem C06_duplicate_free : forall base N t0 msgs es,
 Proof. intros base N t0 msgs es Hb HN. exact (SctpOnceFwdP.at_most_once_all base N Hb HN t0 msgs es). Qed.
 Print Assumptions C06_duplicate_free.
 
+(* 7. In order under abandonment.  M = the fragment lists of the messages sent on one ORDERED
+   stream, in sending order (hypothesis wfM: the sender's numbering, discharged for the sender model
+   by C01's sender lemma).  For every list of events on that stream that are admissible at the
+   delivery point they meet -- a chunk of a message at or beyond it, not yet queued; or a
+   FORWARD-TSN naming the stream as the sender builds it: the sequence number of a message near the
+   delivery point, a cumulative TSN at or above every chunk of every message up to that one --
+   the delivered messages are the messages of a STRICTLY INCREASING list of message indices: what
+   a partially reliable ordered channel delivers comes out in sending order, nothing twice, with
+   gaps exactly where messages were abandoned.  Covers stale complete messages that FORWARD-TSN
+   lets through, queues blocked by orphan fragments until pruned, and the re-poll after pruning. *)
+Module OP := AV.Proof.SctpOrderP.
+Theorem C06_in_order_with_forward_tsn : forall base N, SctpDupP.r32 base -> 0 <= N < 2147483648 ->
+  forall (M : list (list chunk)) (o : nat -> Z) (s0 : Z),
+  (forall j f, nth_error M j = Some f ->
+     f <> [] /\ o j + Z.of_nat (length f) <= o (S j) /\ forall i c, nth_error f i = Some c -> OP.chunk_ok base N o s0 j i f c) ->
+  forall evs k Q, OP.qinv base M k Q -> OP.sokF base N M s0 k Q evs ->
+  exists J, OP.srunF Q (OP.ssn s0 k) evs = Some (OP.msgs_of M J) /\ OP.incr_from k J.
+Proof. exact OP.fwd_ordered. Qed.
+Print Assumptions C06_in_order_with_forward_tsn.
+
 (* PARTIAL.  Non-interference ("abandoning on channel A never loses / reorders / blocks
    channel B") and recovery ("messages sent after the network heals are delivered")
    are end-to-end statements over two endpoints and a network; they are NOT theorems.
